@@ -1,7 +1,7 @@
 (* C14 — the oracle of Oracle.v accepts every run that is step-wise the cursor's. *)
 From Coq Require Import ZArith NArith List Bool Arith Lia.
 From Falcon.lib Require Import PyStr.
-From Falcon.C14 Require Import Spec Oracle Model ModelAsync ProofsDefs ProofsSync ProofsUntil ProofsHistory ProofsAsync.
+From Falcon.C14 Require Import Spec Oracle Model ModelAsync ProofsDefs ProofsSync ProofsUntil ProofsHistory ProofsAsync ProofsAsyncUntil ProofsAsyncHistory.
 Import ListNotations.
 Local Open Scope nat_scope.
 
@@ -71,10 +71,18 @@ Proof.
 Qed.
 
 Lemma oracle_sound_sync : forall cs maxlen data sched h,
-  0 < cs -> valid_hist cs 0 h = true ->
+  0 < cs -> ProofsHistory.valid_hist cs 0 h = true ->
   oracle true cs maxlen data h (map as_obs (sync_history cs maxlen data sched h)) = None.
 Proof.
   intros cs maxlen data sched h Hcs Hv. unfold oracle.
   rewrite (refine_history cs maxlen data sched h Hcs Hv).
   apply first_bad_sync_results.
+Qed.
+
+Lemma oracle_sound_async : forall cs F chunks h,
+  0 < cs -> length chunks + 9 <= F -> ProofsAsyncHistory.valid_hist cs 0 h = true ->
+  oracle false cs (length (concat chunks)) (concat chunks) h (async_history cs true F chunks h) = None.
+Proof.
+  intros cs F chunks h Hcs HF Hv. unfold oracle.
+  apply first_bad_async_ok. apply a_refine_history_nested; assumption.
 Qed.
